@@ -168,7 +168,7 @@ func startEnv() (*scriptedTransport, *dnsScript, func()) {
 // ---- resolution workload ----
 
 var wkOutcomes = []string{"absent", "404", "500", "203", "oversized-with-length", "oversized-no-length", "malformed", "no-m.server", "empty-m.server", "to-name", "to-name-port", "to-ipv4", "to-ipv4-port", "to-ipv6", "to-ipv6-port", "to-invalid", "wrong-type"}
-var srvOutcomes = []string{"none", "fed", "legacy", "both", "three", "same-target-two-ports", "same-record-twice", "trailing-dot", "root-target", "fed-servfail", "legacy-servfail"}
+var srvOutcomes = []string{"none", "fed", "legacy", "both", "three", "same-target-two-ports", "same-record-twice", "trailing-dot", "root-target", "one-malformed-target", "fed-servfail", "legacy-servfail"}
 
 func mkSRV(target string, port uint16) dns.SRV {
 	return dns.SRV{Target: dns.Fqdn(target), Port: port, Priority: 10, Weight: 5}
@@ -208,6 +208,11 @@ func srvFor(outcome, name string) (srvScript, ref.SRVAnswer) {
 	case "root-target":
 		// a record whose target is the root "." says the service is not offered: it names no host to connect to
 		sc.fed = []dns.SRV{{Target: ".", Port: 8445, Priority: 0, Weight: 0}}
+	case "one-malformed-target":
+		// one record whose target is no host name (a blank inside a label) next to a good one: the good record is the
+		// SRV answer (Go's resolver hands the valid records back together with an error about the other)
+		sc.fed = []dns.SRV{mkSRV("fed."+name, 8443), {Target: `bad\032host.` + dns.Fqdn(name), Port: 8446, Priority: 20, Weight: 5}}
+		ans.Fed = []ref.SRVRecord{{Target: "fed." + name, Port: 8443}}
 	case "fed-servfail":
 		sc.fedFail, ans.FedError = true, true
 		sc.legacy, ans.Legacy = leg, []ref.SRVRecord{{Target: "legacy." + name, Port: 8444}}
@@ -389,6 +394,9 @@ func c16WellKnown(c *mon.Ctx, st *scriptedTransport) {
 		"both-max-age-one":  {"Cache-Control": "no-transform, max-age=1", "Expires": exp.Format("Mon, 02 Jan 2006 15:04:05 MST")},
 		"max-age-zero":      {"Cache-Control": "max-age=0"},
 		"both-expires-past": {"Cache-Control": "max-age=600", "Expires": "Mon, 02 Jan 2006 15:04:05 GMT"},
+		// the two obsolete HTTP-date forms every recipient has to understand (RFC 7231 section 7.1.1.1)
+		"expires-rfc850":  {"Expires": exp.Format("Monday, 02-Jan-06 15:04:05 MST")},
+		"expires-asctime": {"Expires": exp.Format("Mon Jan _2 15:04:05 2006")},
 	}
 	expS := exp.Format("Mon, 02 Jan 2006 15:04:05 MST")
 	extra := map[string][][2]string{
@@ -433,7 +441,7 @@ func c16WellKnown(c *mon.Ctx, st *scriptedTransport) {
 			switch name {
 			case "none", "malformed":
 				ok = res.CacheExpiresAt == 0
-			case "expires":
+			case "expires", "expires-rfc850", "expires-asctime":
 				ok = res.CacheExpiresAt == exp.Unix()
 			case "max-age", "both":
 				ok = in(before+3600, after+3600)
